@@ -40,7 +40,7 @@ def run(tier="quick"):
            and "_set_" not in f.name and f.name not in reach]
     n, nund, samples = run_cap(chk, prog, fns, rule="B1", noreturn=NORETURN, strict=True,
                                cap_factory=lambda p: UrlCap(p, noreturn=NORETURN),
-                               kinds={"lower", "upper", "null", "count", "cursor", "freed", "uninit"})
+                               kinds={"lower", "upper", "null", "count", "cursor", "freed", "uninit", "slice"})
     parse = prog.need("spif_url_parse")
     slices = sum(1 for c in X.calls_in(parse.body) if (X.callee_name(c) or "").endswith("_from_buff"))
     chk.count("functions", n, floor=4)
